@@ -626,8 +626,13 @@ def _mutable_attrs(prog, cname):
 
 
 def _dyn_match(dkey, key):
-    parts = dkey.split('<dyn>')
-    return all(p.replace('{}', '') in key or not p.replace('{}', '') for p in parts)
+    """Can the dynamically built writer key `dkey` (literal parts, `{}` index slots, `<dyn>` for
+    a run-time name) ever equal the reader's key?  Index slots only produce digits, so a swept
+    key `<name>_{i}` never stands in for a literal key such as 'n_networks'."""
+    import re
+    rx = ''.join('.+' if part == '<dyn>' else '[0-9]+' if part == '{}' else re.escape(part)
+                 for part in re.split(r'(<dyn>|\{\})', dkey) if part)
+    return re.fullmatch(rx, key.replace('{}', '0')) is not None
 
 
 def _index_agreement(ctx, rid, cname, w):
